@@ -599,6 +599,21 @@ def s_one(draw):
             chart[k] = draw(st.sampled_from([" ", "\n", " \n ", "\t"]))
     sa = draw(st.integers(0, 63))
     sim_absent = [k for i, k in enumerate(["BPMS", "STOPS", "DELAYS", "WARPS"]) if sa < 16 and (sa >> i) & 1]
+    if draw(st.integers(0, 9)) == 0:
+        # the chart repeats the song's timing lists verbatim (what the editor writes): it is still the source, and its own
+        # OFFSET / DISPLAYBPM must be used. Configurations: SSC simfile, qualifying version, exactly these lists non-empty.
+        subset = draw(st.lists(st.sampled_from(["BPMS", "STOPS", "DELAYS", "WARPS"]), min_size=1, max_size=4, unique=True))
+        for k in ("BPMS", "STOPS", "DELAYS", "WARPS"):
+            chart[k] = sim[k]
+        sim_absent = [k for k in ("BPMS", "STOPS", "DELAYS", "WARPS") if k not in subset and k != "BPMS"]
+        if "BPMS" not in subset:
+            subset.append("BPMS")
+        r = 2 + sum(2 * POW3[TP.index(k)] for k in subset)
+        ver = draw(st.sampled_from([3, 4, 5, 6]))
+        for _ in range(2):
+            side = draw(st.integers(0, 80))
+            ign = draw(st.integers(0, 1))
+            ws.append((((1 * 7 + ver) * CH + r) * 81 + side) * 2 + ign)
     return {
         "kind": "one",
         "ws": ws,
